@@ -424,9 +424,9 @@ def run_backend(backend, tier, seed, repo, have_driver=True):
     fac = own.make_memory if backend == "memory" else own.SqlFactory(backend)
     # rounds stay small (the model's heap only grows within a round); thorough = many more rounds
     # (the extracted model's run time grows faster than quadratically with the steps of a round: more, shorter rounds)
-    n_rounds = (6 if quick else 180) if backend == "memory" else (2 if quick else 30)
-    n_random = (20 if quick else 50) if backend == "memory" else (15 if quick else 60)
-    n_windows = (30 if quick else 60) if backend == "memory" else (25 if quick else 80)
+    n_rounds = (4 if quick else 180) if backend == "memory" else (2 if quick else 30)
+    n_random = (25 if quick else 50) if backend == "memory" else (15 if quick else 60)
+    n_windows = (40 if quick else 60) if backend == "memory" else (25 if quick else 80)
     n_seq = (2 if quick else 3) if backend == "memory" else (2 if quick else 6)
     from aw_query import functions as qfunctions
     cur = {}              # the running round / query: storage, world, window
@@ -446,7 +446,12 @@ def run_backend(backend, tier, seed, repo, have_driver=True):
         def f():
             bk = Datastore(lambda testing=False, **kw: cur["storage"])[bucket]
             return (ev_rows(bk.get(starttime=cur["st"], endtime=cur["en"])), bk.get_eventcount(starttime=cur["st"], endtime=cur["en"]))
-        return quiet(f)
+        # one direct read per bucket while the query runs (at the first hand-out) and one after it has ended; that the
+        # store is the same throughout is what the dumps before/after decide
+        memo = cur["direct_memo"]
+        if bucket not in memo:
+            memo[bucket] = quiet(f)
+        return memo[bucket]
 
     probe = reads.ReadProbe(qfunctions.functions, Event, direct_read,
                             (lambda: cur["world"].spy_calls if cur.get("world") is not None else []))
@@ -464,6 +469,7 @@ def run_backend(backend, tier, seed, repo, have_driver=True):
         if world is not None:
             world.spy_on = mirror
             world.spy_calls = []
+        cur["direct_memo"] = {}
         probe.begin()
         try:
             res = query2.query("q", text, st, en, ds)
@@ -475,6 +481,7 @@ def run_backend(backend, tier, seed, repo, have_driver=True):
             res = None
         finally:
             calls = probe.end()
+            cur["direct_memo"] = {}
             if world is not None:
                 world.spy_on = False
         after = full_dump_quiet(world, storage), quiet(lambda: facade_dump(ds))
@@ -500,6 +507,9 @@ def run_backend(backend, tier, seed, repo, have_driver=True):
         if status == "ok" and spec:
             bad += reads.check_returned(res, spec, direct_read, calls)
             count("untouched-reads-returned", len(spec))
+        if bad or dis:
+            # self-contained: the buckets as they are stored (id, timestamp us, duration us, data), before == after or reported above
+            replay["stored_events"] = {row[0]: [list(r[:4]) for r in row[3]] for row in after[0]}
         for sig, what, detail in bad[:2]:
             rep["failing"].append({"signature": sig, "description": f"[{backend}] {what}", "replay": dict(replay, **detail)})
         for what, detail in dis[:1]:
@@ -540,9 +550,25 @@ def run_backend(backend, tier, seed, repo, have_driver=True):
         del cur["history"][:-4]
         return status
 
-    for rnd in range(n_rounds):
+    # the plan of rounds (one population each).  SQL back ends: every round has everything.  Memory (mirrored into the
+    # model): the boundary programs of each bucket configuration are spread over separate short rounds, the boundary
+    # windows have a round of their own
+    plan = []
+    if backend == "memory":
+        parts = 2
+        for cfg in range(3):
+            for part in range(parts):
+                plan.append({"nb": [3, 1, 2][cfg], "boundary": (cfg, part, parts), "random": 0, "seq": 0, "windows": 0, "bwin": False})
+        plan.append({"nb": 3, "boundary": None, "random": 0, "seq": 0, "windows": 0, "bwin": True})
+        for r in range(n_rounds):
+            plan.append({"nb": [3, 1, 2][r % 3], "boundary": None, "random": n_random, "seq": n_seq, "windows": n_windows, "bwin": False})
+    else:
+        for r in range(n_rounds):
+            plan.append({"nb": [3, 1, 2][r % 3], "boundary": (r, 0, 1) if r < 3 else None, "random": n_random, "seq": n_seq,
+                         "windows": n_windows, "bwin": r == 0})
+    for rnd, rd in enumerate(plan):
         storage = fac()
-        nb = [3, 1, 2][rnd % 3]
+        nb = rd["nb"]
         world = None
         if backend == "memory":
             world = own.World(storage, Event, "memory")
@@ -551,19 +577,26 @@ def run_backend(backend, tier, seed, repo, have_driver=True):
         sizes = populate(storage, Event, rng, nb, world)
         buckets = sorted(sizes)
         ds = Datastore(lambda testing=False, **kw: storage)
-        programs = list(boundary_programs(buckets, rnd)) if rnd < 3 else []
-        programs += [random_program(rng, buckets) for _ in range(n_random)]
+        programs = []
+        if rd["boundary"]:
+            cfg, part, parts = rd["boundary"]
+            programs = list(boundary_programs(buckets, cfg))
+            programs = programs[part::parts]
+        programs += [random_program(rng, buckets) for _ in range(rd["random"])]
         for kind, stmts, fail, spec in programs:
             a = BASE + rng.choice([-2, 0, 0, 1, 3]) * 1_000_000 + rng.choice([0, 0, 1, 999, 1000])
             b = a + rng.choice([0, 1000, 5_000_000, 60_000_000, 60_000_000])
             if "+reread" in kind and rng.random() < 0.7:
                 b = a + 60_000_000         # mostly windows with events in them
             st, en = aware(a, rng.choice([0, 60, -300, 345])), aware(b, rng.choice([0, 0, 120]))
-            run_program(rnd, ds, sizes, kind, stmts, fail, spec, a, b, st, en)
+            # (the two longer re-read shapes are decided by the oracle alone; "+reread" and the random programs are
+            # mirrored into the model as well)
+            run_program(rnd, ds, sizes, kind, stmts, fail, spec, a, b, st, en,
+                        mirror=not (kind.endswith("-nested") or kind.endswith("-earlier")))
         # ---- sequences of queries in this process, same Datastore object: a mutating query, a reading query over the same
         # window (the same datetime objects, equal ones, the same instants under another UTC offset), a write to the bucket
         # in between, another window and back
-        for _ in range(n_seq):
+        for _ in range(rd["seq"]):
             full = [x for x in buckets if sizes[x]]
             bk = rng.choice(full) if full else rng.choice(buckets)
             a = BASE + rng.choice([-2, 0, 1]) * 1_000_000 + rng.choice([0, 1, 999, 1000])
@@ -591,8 +624,8 @@ def run_backend(backend, tier, seed, repo, have_driver=True):
                     cur["dump"] = None
                     count("write-between-queries:" + what)
         # ---- windows
-        wins = list(windows_boundary()) if rnd == 0 else []
-        for _ in range(n_windows):
+        wins = list(windows_boundary()) if rd["bwin"] else []
+        for _ in range(rd["windows"]):
             a = BASE + rng.randrange(-3_000_000, 15_000_000) if rng.random() < 0.7 else BASE + rng.choice([0, 1, 999, 1000, 1001]) + 500_000 * rng.randrange(0, 20)
             b = a + rng.choice([0, 1, 1000, rng.randrange(0, 30_000_000), rng.randrange(0, 30_000_000),
                                 rng.randrange(5_000_000, 60_000_000), rng.randrange(5_000_000, 60_000_000), -rng.randrange(0, 5_000_000)])
